@@ -3,8 +3,11 @@ package props
 import (
 	"fmt"
 	"runtime/debug"
+
+	"go.etcd.io/bbolt"
 	"strings"
 	"time"
+	"verif/harness/internal/qx"
 
 	"github.com/openziti/storage/ast"
 	"verif/harness/internal/core"
@@ -63,9 +66,16 @@ var c10Betweens = []string{"1 and 5", "1.5 and 5", "1 and 5.5", "datetime(2020-0
 var c10Suffix = []string{"", " sort by sa", " sort by na desc, sa asc", " sort by ta", " sort by zz", " sort by m.k", " skip 1", " skip -1", " limit 1", " limit none", " limit -3", " skip 2 limit 2", " sort by da skip 0 limit 0", " skip 1.5", " limit 2.5", " skip 9223372036854775807 limit 9223372036854775807"}
 
 // c10Sentences enumerates grammar-derived sentences with arbitrary operand type mixes.
-func c10Sentences() []string {
+func c10Sentences() []string { return c10SentencesFor(c10Lhs) }
+
+// left-hand sides over schema Q (bolt path)
+var c10BoltLhs = []string{"s", "ism", "ibig", "flt", "b", "t", "grp", "tags", "nums", "friends", "owner", "id", "meta.k", "meta.a.b", "meta", "owner.name", "owner.tags", "friends.name", "friends.tags", "friends.rank", "zz", "owner.zz",
+	"anyOf(tags)", "allOf(tags)", "anyOf(friends.name)", "allOf(friends.rank)", "anyOf(owner.tags)", "count(tags)", "count(friends)", "anyOf(s)", "count(ism)", "anyOf(meta.k)", "anyOf(zz)",
+	"count(from friends where rank > 1)", "count(from friends where name = \"a\" skip 1 limit 1)", "count(from tags where true)", "count(from owner where true)", "count(from friends where zz = 1)"}
+
+func c10SentencesFor(lhs []string) []string {
 	var out []string
-	for _, l := range c10Lhs {
+	for _, l := range lhs {
 		for _, op := range []string{"=", "!=", "<", "<=", ">", ">="} {
 			for _, r := range c10Scalars {
 				out = append(out, l+" "+op+" "+r)
@@ -132,6 +142,8 @@ func c10MaxLen(t core.Tier) int {
 	return 3
 }
 
+const c10BoltCases = 16
+
 func c10Plan(t core.Tier) (sent, mut, seq, rnd int) {
 	sent = 16 // sentences x suffixes split into 16 cases
 	mut = 24
@@ -156,11 +168,11 @@ func init() {
 		Exhaustive:  func(core.Tier) bool { return true },
 		Plan: func(tier core.Tier, seed int64) int {
 			a, b, c, d := c10Plan(tier)
-			return a + b + c + d
+			return a + b + c + d + c10BoltCases
 		},
 		Run: runC10,
 		MinCounters: func(core.Tier) map[string]int64 {
-			return map[string]int64{"accepted_and_evaluated": 2000, "rejected": 2000, "junk_inserted": 1000}
+			return map[string]int64{"accepted_and_evaluated": 2000, "rejected": 2000, "junk_inserted": 1000, "bolt_queries_accepted": 1000, "bolt_queries_on_empty_store": 1000}
 		},
 	})
 }
@@ -266,7 +278,11 @@ func runC10(c *core.Ctx, idx int) {
 	r := c.Rand()
 	tbl, rows := c10Table()
 	e := &c10Env{c: c, tbl: tbl, rows: rows}
-	nSent, nMut, nSeq, _ := c10Plan(c.Tier)
+	nSent, nMut, nSeq, nRnd := c10Plan(c.Tier)
+	if idx >= nSent+nMut+nSeq+nRnd {
+		c10Bolt(c, idx-(nSent+nMut+nSeq+nRnd))
+		return
+	}
 	sentences := c10Sentences()
 	junkCheck := func(s string) {
 		// (accepted S, S with one unrecognised character inserted at a token boundary) must not both parse
@@ -404,4 +420,54 @@ func runC10(c *core.Ctx, idx int) {
 	}
 	e.canary()
 	_ = fmt.Sprint
+}
+
+// c10Bolt: sentences with arbitrary operand type mixes over schema Q, run through Store.QueryIds on a populated
+// database (nulls, empty and absent sets, typed map values) and on an empty one.
+func c10Bolt(c *core.Ctx, part int) {
+	r := c.Rand()
+	env, err := newQEnv(c, r, 12, false)
+	if err != nil {
+		c.Violation("C10 setup", err.Error(), nil)
+		return
+	}
+	defer env.close()
+	emptyEnv, err := newQEnv(c, core.NewRand(1), 0, false)
+	if err != nil {
+		c.Violation("C10 setup", err.Error(), nil)
+		return
+	}
+	defer emptyEnv.close()
+	sentences := c10SentencesFor(c10BoltLhs)
+	try := func(e *qEnv, q string, counter string) {
+		defer func() {
+			if rec := recover(); rec != nil {
+				st := string(debug.Stack())
+				c.Violationf("C10 panic in "+c10PanicSite(st)+" (Store.QueryIds)", map[string]any{"query": q, "world": describeWorld(e.w)}, "query %q panicked: %v\n%s", q, rec, firstLines(st, 14))
+			}
+		}()
+		_ = e.db.View(func(tx *bbolt.Tx) error {
+			for _, store := range []string{qx.Things} {
+				ids, n, err := e.sc.St(store).Store.QueryIds(tx, q)
+				c.Eval()
+				if err == nil {
+					c.Count(counter, 1)
+					if int64(len(ids)) > n && !strings.Contains(q, "skip") && !strings.Contains(q, "limit") {
+						c.Violationf("C10 more ids than the reported count", q, "query %q: %d ids, count %d", q, len(ids), n)
+					}
+				}
+			}
+			return nil
+		})
+	}
+	for i := part; i < len(sentences); i += c10BoltCases {
+		for si, suf := range []string{"", " sort by s desc, ism", " sort by tags", " sort by owner.name", " skip 1 limit 2", " sort by flt skip -1 limit none"} {
+			if si > 0 && (i+si)%3 != 0 {
+				continue
+			}
+			q := sentences[i] + suf
+			try(env, q, "bolt_queries_accepted")
+			try(emptyEnv, q, "bolt_queries_on_empty_store")
+		}
+	}
 }
